@@ -41,11 +41,12 @@ type pending struct {
 	nontri  bool
 }
 
+// Muxer.videoMetaReady for the case's parameter sets (classification of the input only)
 func ready(c *muxCase) bool {
 	if c.codec == "h265" {
-		return len(c.vps) > 0 && len(c.sps) > 0 && len(c.pps) > 0
+		return len(c.vps) > 0 && len(c.sps) > 0 && len(c.pps) > 0 && (c.w != 0 || hevcSpsDecodes(c.sps))
 	}
-	return len(c.sps) >= 4 && len(c.pps) > 0
+	return len(c.sps) >= 4 && len(c.pps) > 0 && (c.w != 0 || avcSpsDecodes(c.sps))
 }
 
 // index of the first frame that can be carried (-1: none)
